@@ -29,6 +29,12 @@ def _props():
     return c01, c02, c04, c09, c17, c18
 
 
+def _c11():
+    from .props import c11
+
+    return c11
+
+
 # ------------------------------------------------------------------ unsupported statements
 
 # parser-rejected families: silent=True -> no entity, silent=False -> DDLParserError
@@ -97,7 +103,7 @@ def unsupported(draw, families=("rejected", "skipped")):
 
 # ------------------------------------------------------------------ blocks
 
-BLOCK_KINDS = ["tables", "ctable", "alter", "typed", "seq", "decl", "set", "drop", "like"]
+BLOCK_KINDS = ["tables", "ctable", "alter", "typed", "seq", "decl", "set", "drop", "like", "dtable"]
 
 
 @st.composite
@@ -123,6 +129,8 @@ def block(draw, kinds=BLOCK_KINDS, small=True):
              "eq": draw(st.booleans())}
     elif k == "drop":
         c = {"schema": draw(st.one_of(st.none(), gen.plain_ident())), "name": draw(gen.plain_ident(min_len=2))}
+    elif k == "dtable":
+        c = draw(_c11().case_strategy(3))
     else:  # like
         c = {"schema": draw(st.one_of(st.none(), gen.plain_ident())), "name": draw(gen.plain_ident(min_len=2)),
              "src": draw(gen.plain_ident(min_len=2)), "paren": draw(st.booleans())}
@@ -151,6 +159,8 @@ def statements(b, index=0):
         return [c17.seq_tokens(s) for s in c["seqs"]]
     if k == "decl":
         return c18.PROP.statements(c)
+    if k == "dtable":
+        return [_c11().merge_glue(_c11().PROP.statement(c)[0])]
     if k == "set":
         return [K("SET") + [I(c["name"])] + ([EQ] if c["eq"] else []) + [V(c["value"]), END]]
     if k == "drop":
@@ -170,7 +180,7 @@ def entity_kinds(b):
     k, c = b["k"], b["c"]
     if k == "tables":
         return ["tables"] * len(c["tables"])
-    if k in ("ctable", "typed", "drop", "like"):
+    if k in ("ctable", "typed", "drop", "like", "dtable"):
         return ["tables"]
     if k == "alter":
         return ["tables"] * len(c["tables"])
